@@ -11,12 +11,13 @@ import numpy as np
 
 from . import core
 
-SITE_TYPES = ('spin', 'fermion', 'boson1', 'boson2')
+SITE_TYPES = ('spin', 'fermion', 'boson1', 'boson2', 'boson4')
 CONSERVE_OPTIONS = {
     'spin': [None, 'Sz', 'parity'],
     'fermion': [None, 'N', 'parity'],
     'boson1': [None, 'N', 'parity'],
     'boson2': [None, 'N', 'parity'],
+    'boson4': [None, 'N', 'parity'],   # parity: the sort permutation of the basis is not an involution
 }
 
 
@@ -68,6 +69,8 @@ def make_site(kind, conserve=None):
         return ts.BosonSite(Nmax=1, conserve=conserve)
     if kind == 'boson2':
         return ts.BosonSite(Nmax=2, conserve=conserve)
+    if kind == 'boson4':
+        return ts.BosonSite(Nmax=4, conserve=conserve)
     raise core.MachineryError('unknown site type %r' % kind)
 
 
@@ -76,7 +79,7 @@ def make_unit_cell(uc, conserve=None):
     (mixed cells: each site conserves its natural charge, combined by set_common_charges)."""
     from tenpy.networks import site as ts
     if conserve == 'common':
-        nat = {'spin': 'Sz', 'fermion': 'N', 'boson1': 'N', 'boson2': 'N'}
+        nat = {'spin': 'Sz', 'fermion': 'N', 'boson1': 'N', 'boson2': 'N', 'boson4': 'N'}
         sites = [make_site(k, nat[k]) for k in uc]
         ts.set_common_charges(sites, 'independent')
         return sites
@@ -95,7 +98,8 @@ def make_lattice(cfg, sites):
     elif name == 'Ladder':
         lat = tl.Ladder(cfg['Lx'], sites, bc=bcx, bc_MPS=mps)
     elif name == 'Square':
-        lat = tl.Square(cfg['Lx'], cfg['Ly'], sites[0], bc=[bcx, bcy], bc_MPS=mps)
+        shift = int(cfg.get('shift', 0))
+        lat = tl.Square(cfg['Lx'], cfg['Ly'], sites[0], bc=[bcx, shift if shift else bcy], bc_MPS=mps)
     else:
         raise core.MachineryError('unknown lattice %r' % name)
     # the specification assumes the default order: x slowest, then y, then u
@@ -140,8 +144,13 @@ def apply_declaration(model, cfg, d):
     elif kind == 'expdecay':
         strength = gnum(d['s0']) * float(d['lamInv'] ** d['dmax'])
         subs = list(d['subs']) if d['subs'] else None
-        model.add_exponentially_decaying_coupling(strength, 1.0 / d['lamInv'], d['opi'], d['opj'], subsites=subs,
+        model.add_exponentially_decaying_coupling(strength, gnum(d['lam']) / d['lamInv'], d['opi'], d['opj'], subsites=subs,
                                                   plus_hc=d['hc'])
+    elif kind == 'expcenter':
+        strength = gnum(d['s0']) * float(d['lamInv'] ** d['dmax'])
+        subs = list(d['subs']) if d['subs'] else None
+        model.add_exponentially_decaying_centered_terms(strength, gnum(d['lam']) / d['lamInv'], d['opi'], d['opj'], int(d['i0']),
+                                                        subsites=subs, plus_hc=d['hc'])
     elif kind == 'local':
         term = [(op, _latidx(cfg, xyu)) for op, xyu in d['term']]
         model.add_local_term(gnum(d['s']), term, plus_hc=d['hc'])
@@ -210,7 +219,7 @@ def site_op(site, name):
     return op[np.ix_(perm, perm)]
 
 
-SPEC_STATES = [('up', 'down'), ('empty', 'full'), ('0', '1', '2'), ('0', '1')]
+SPEC_STATES = [('up', 'down'), ('empty', 'full'), ('0', '1', '2', '3', '4'), ('0', '1', '2'), ('0', '1')]
 
 
 def unperm(site):
@@ -365,6 +374,17 @@ def local_terms_of_expdecay(edt, bc, N, cells, with_strings=True):
                     continue
                 out.append((pref, fill_string([(i, op_i), (j, op_j)], [op_string if with_strings else 'Id'])))
                 pref = pref * lam[j % N]
+    # centred terms (finite systems): strength * prod of lambda_n over the subsites between i (included) and j (excluded)
+    for strength, lam, op_i, op_j, i, subsites, op_string in edt.centered_terms:
+        lam = np.full(N, lam) if np.isscalar(lam) else np.asarray(lam)
+        S = [int(s) for s in subsites]
+        for j in S:
+            if j == i:
+                continue
+            between = [n for n in S if (j < n <= i) or (i <= n < j)]
+            lo, hi = min(i, j), max(i, j)
+            ops = [(lo, op_i if lo == i else op_j), (hi, op_j if hi == j else op_i)]
+            out.append((strength * np.prod(lam[between]), fill_string(ops, [op_string if with_strings else 'Id'])))
     return out
 
 
